@@ -13,7 +13,7 @@
 (*   WAppend   the writer process appending k more bytes                   *)
 (*                                                                         *)
 (* Bytes are naturals (their real values): 97 'a', 98 'b', 10 LF, 13 CR,   *)
-(* 195 169 = the two bytes of U+00E9.                                      *)
+(* 195 169 = the two bytes of U+00E9, 255 = a byte that is not UTF-8.      *)
 (***************************************************************************)
 EXTENDS Naturals, Sequences, FiniteSets, TLC
 
@@ -29,7 +29,8 @@ ASSUME Dev \subseteq DevNames
 LF == 10
 M1 == 195
 M2 == 169
-Sym == {97, 98, LF, 13, M1, M2}
+BAD == 255         \* a byte that is not valid UTF-8 anywhere (the line is delivered with U+FFFD in its place: lossy decoding of the whole line)
+Sym == {97, 98, LF, 13, M1, M2, BAD}
 
 VARIABLES content, pre, head, cap,   \* chosen once per behaviour
           written,                  \* bytes of content already in the file
@@ -52,14 +53,22 @@ ValidUtf8(s) ==
   IF s = <<>> THEN TRUE
   ELSE IF Head(s) = M1 THEN Len(s) >= 2 /\ s[2] = M2 /\ ValidUtf8(SubSeq(s, 3, Len(s)))
   ELSE IF Head(s) = M2 THEN FALSE
+  ELSE IF Head(s) = BAD THEN FALSE
   ELSE ValidUtf8(Tail(s))
+\* contents explored: the two-byte character always whole (its splitting by polls and buffers is the reader's business), BAD anywhere
+RECURSIVE WellPaired(_)
+WellPaired(s) ==
+  IF s = <<>> THEN TRUE
+  ELSE IF Head(s) = M1 THEN Len(s) >= 2 /\ s[2] = M2 /\ WellPaired(SubSeq(s, 3, Len(s)))
+  ELSE IF Head(s) = M2 THEN FALSE
+  ELSE WellPaired(Tail(s))
 
 RECURSIVE SeqsUpTo(_)
 SeqsUpTo(n) == IF n = 0 THEN {<<>>}
                ELSE LET S == SeqsUpTo(n - 1)
                     IN S \cup {Append(s, b) : s \in {t \in S : Len(t) = n - 1}, b \in Sym}
 
-Contents == {s \in SeqsUpTo(MaxLen) : ValidUtf8(s)}
+Contents == {s \in SeqsUpTo(MaxLen) : WellPaired(s)}
 
 \* index of the first LF in s, 0 if none
 RECURSIVE FirstLF(_, _)
@@ -86,7 +95,7 @@ Min(a, b) == IF a < b THEN a ELSE b
 -----------------------------------------------------------------------------
 Init ==
   /\ content \in Contents
-  /\ pre \in {p \in 0..Len(content) : ValidUtf8(SubSeq(content, 1, p))}   \* start-up falls on a character boundary
+  /\ pre \in {p \in 0..Len(content) : WellPaired(SubSeq(content, 1, p))}   \* start-up falls on a character boundary
   /\ head \in BOOLEAN
   /\ cap \in Caps
   /\ written = pre
